@@ -8,7 +8,7 @@ from .detectors import SPECS, gen_case, epoch_start
 ID = "C01"
 # the lifecycle theorems of the data-drift detectors and MD3 live in their own property files and are re-checked here
 PROPS = ["Prop_C01", "Prop_C09", "Prop_C07", "Prop_C11", "Prop_C10", "Prop_C19"]
-IMPORTS = ("From MV Require Import Base Num NumFloat Lifecycle Pairwise Ddm ChangeDet Adwin Lfr Corr Corr_C03 Corr_C06.\n"
+IMPORTS = ("From MV Require Import Base Num NumFloat Lifecycle Pairwise Ddm ChangeDet Adwin Lfr Corr Corr_C03 Corr_C06 Corr_Percentile.\n"
            "From Coq Require Import PrimFloat.")
 CORR_NAME = "Corr_C01: the generic machine instantiated with the DDM/EDDM/STEPD/PH/CUSUM/LFR kernels and the ADWIN model = the implementation's lifecycle observables"
 TRUSTED = ["Coq 8.16.1 kernel + vm_compute + primitive floats",
